@@ -330,6 +330,15 @@ func TestCheck(t *testing.T) {
 		return
 	}
 	binarySignals(t, rep, shard, of)
+	sizes := []int{4, 64, 200}
+	if ev.Thorough() {
+		sizes = append(sizes, 16, 1000)
+	}
+	for i, n := range sizes {
+		if (i+3)%of == shard {
+			manyConnections(t, rep, n)
+		}
+	}
 	for _, v := range variants {
 		e := &mc.Explorer{Bound: bound, Shard: shard, Of: of, Deadline: deadline}
 		func() {
